@@ -1,13 +1,17 @@
 #!/bin/sh
 # MANIFEST.setup_cmd: offline build of the whole Coq development from files on disk.
-set -e
+# Tolerant (make -k): a file that does not build only breaks the checks that depend on it; each
+# check rebuilds the closure of its own Props.v anyway and reports a broken obligation itself.
 cd "$(dirname "$0")/.."
-export PYTHONPATH=/repo/src PYTHONHASHSEED=0 PIP_NO_INDEX=1
+: "${VERIF_REPO:=/repo}"
+export VERIF_REPO PYTHONPATH="$VERIF_REPO/src" PYTHONHASHSEED=0 PIP_NO_INDEX=1
 mkdir -p .scratch coq/Gen evidence replay
-/venv/bin/python tools/gen_all.py
+/venv/bin/python tools/gen_all.py 2>&1 | grep -v 'WARNING conda'
 /venv/bin/python -c "
-import sys; sys.path.insert(0,'tools'); import vlib; vlib.ensure_makefile()"
+import sys; sys.path.insert(0,'tools'); import vlib; vlib.ensure_makefile()" || exit 1
 cd coq
-timeout 3000 make -j16 2>&1 | grep -v '^Closed under\|^COQDEP\|^COQC' | tail -40
-timeout 3000 make -j16 >/dev/null 2>&1   # exit status of the build proper
-echo "setup ok"
+timeout 3400 make -k -j16 > ../.scratch/setup_build.log 2>&1
+rc=$?
+grep -E '^File |^Error|Error:' ../.scratch/setup_build.log | head -20
+echo "setup: make exit status $rc ($(ls */*.vo 2>/dev/null | wc -l) .vo files)"
+exit 0
